@@ -38,14 +38,39 @@ def ans_states(ctx, laws, mode, widths=None):
         ctx.vh("replay", mode=mode, infile=cases)
 
 
+# (w, s, precisions) driven by the random-history drivers; exact validation needs s <= 16
+ANS_DRIVE_QUICK = [(8, 16, "1,2,3,4,5,6,7,8"), (2, 4, "1,2"), (3, 6, "1,2,3"), (16, 32, "1,4,8,12,16"), (32, 64, "1,8,12,16,24,32"), (16, 64, "1,8,12,16"), (8, 32, "1,4,8")]
+ANS_DRIVE_THOROUGH = ANS_DRIVE_QUICK + [(2, 6, "1,2"), (4, 8, "1,2,3,4"), (4, 12, "1,2,3,4"), (32, 128, "1,16,24,32"), (64, 128, "1,16,24,32"), (2, 8, "1,2")]
+
+
+def ans_traces(ctx, exact, abstract):
+    """impl -> spec: random histories on the real AnsCoder at real and tiny widths; every recorded event is validated by TLC
+    against TraceAns.tla (exact, every field) and/or AbsAns.tla (format-agnostic stack semantics)."""
+    n = 20000 if ctx.tier == "thorough" else 4000
+    for (w, s, precs) in (ANS_DRIVE_THOROUGH if ctx.tier == "thorough" else ANS_DRIVE_QUICK):
+        base = os.path.join(ctx.work, "anstrace_%d_%d" % (w, s))
+        ctx.vh("drive_ans", extra=["--w", str(w), "--s", str(s), "--precs", precs, "--n", str(n), "--trace", base])
+        if exact and s <= 16:
+            ctx.validate_trace("TraceAns", base + ".exact.ndjson", {"W": w, "S": s}, invariants=["StateInv"], what="AnsCoder<%d,%d> exact" % (w, s))
+        if abstract:
+            ctx.validate_trace("AbsAns", base + ".abs.ndjson", invariants=["Report"], what="AnsCoder<%d,%d> abstract" % (w, s))
+    if abstract:
+        ctx.require("trace_confirmations", 200)
+        for c in ("debt_cancelled", "dec_below_base", "reimport", "from_binary", "export_binary_ok"):
+            ctx.require(c)
+
+
 @prop("C01")
 def c01(ctx):
+    ans_traces(ctx, exact=False, abstract=True)
     ans_states(ctx, ["TypeInv", "StateInv", "LawPopAfterPush", "LawImportExport"], "c01")
     ctx.require("batch_forms")
 
 
 @prop("C06")
 def c06(ctx):
+    ans_traces(ctx, exact=True, abstract=False)
+    range_traces(ctx, exact=True)
     ans_states(ctx, ["TypeInv", "StateInv"], "c06")
     range_hists(ctx, ["TypeInv", "StateInv", "RefAgree"], "c06")
     rdec_cases(ctx, "c06")
@@ -95,8 +120,27 @@ RANGE_CLASSES = ["no_renorm", "normal_normal", "normal_inverted", "inverted_inve
                  "seal_one_word", "seal_two_words", "seal_inverted_carry", "seal_inverted_nocarry", "seal_fresh"]
 
 
+RANGE_DRIVE_QUICK = [(8, 16, "1,2,3,4,5,6,7,8"), (2, 4, "1,2"), (2, 6, "1,2"), (3, 6, "1,2,3"), (16, 32, "1,4,8,12,16"), (32, 64, "1,8,12,16,24,32"), (16, 64, "1,8,12,16"), (8, 32, "1,4,8")]
+RANGE_DRIVE_THOROUGH = RANGE_DRIVE_QUICK + [(2, 8, "1,2"), (3, 9, "1,2,3"), (4, 8, "1,2,3,4"), (4, 12, "1,2,3,4"), (32, 128, "1,16,24,32"), (64, 128, "1,16,24,32")]
+
+
+def range_traces(ctx, exact):
+    """impl -> spec: adversarial random messages (models chosen to provoke held-back words) on the real range coder at real
+    and tiny widths with inspections, sealing, decoding and seeking; the driver compares decoded symbols, TLC validates every
+    recorded event exactly against TraceRange.tla where the state fits TLC's integers (S <= 16)."""
+    n = 30000 if ctx.tier == "thorough" else 5000
+    for (w, s, precs) in (RANGE_DRIVE_THOROUGH if ctx.tier == "thorough" else RANGE_DRIVE_QUICK):
+        base = os.path.join(ctx.work, "rangetrace_%d_%d" % (w, s))
+        ctx.vh("drive_range", extra=["--w", str(w), "--s", str(s), "--precs", precs, "--n", str(n), "--trace", base])
+        if exact and s <= 16:
+            ctx.validate_trace("TraceRange", base + ".exact.ndjson", {"W": w, "S": s}, invariants=["StateInv"], what="RangeEncoder/Decoder<%d,%d> exact" % (w, s))
+    for c in ("inverted", "inverted_2plus", "seek", "inspect"):
+        ctx.require(c)
+
+
 @prop("C02")
 def c02(ctx):
+    range_traces(ctx, exact=False)
     range_hists(ctx, ["TypeInv", "StateInv", "RoundTrip", "ExhaustedAfter", "EmptyMessage", "InSync"], "c02")
     for c in RANGE_CLASSES + ["iid_batch"]:
         ctx.require(c)
@@ -111,6 +155,7 @@ def c11(ctx):
 
 @prop("C07")
 def c07(ctx):
+    range_traces(ctx, exact=False)
     ans_states(ctx, ["TypeInv", "StateInv", "LawAppendOnly", "LawPopAfterPush"], "c01", widths=[(2, 4, 3, 2), (3, 6, 3, 1)])
     range_hists(ctx, ["TypeInv", "StateInv", "InSync"], "c07")
     for c in ["seek_final", "seek_snapshot_inverted", "ans_seek"]:
@@ -129,6 +174,7 @@ def c09(ctx):
 
 @prop("C04")
 def c04(ctx):
+    ans_traces(ctx, exact=False, abstract=True)
     ans_states(ctx, ["TypeInv", "StateInv", "LawPushAfterPop", "LawBinary", "LawDecodeTotal"], "c04")
     for c in ("binary_state", "binary_trailing_zero"):
         ctx.require(c)
@@ -246,6 +292,15 @@ def leaky_cfgs(ctx):
     return LEAKY_THOROUGH if ctx.tier == "thorough" else LEAKY_QUICK
 
 
+# float weight classes (B, P, MaxLen, 0)
+FLOATCLASS_QUICK = [(4, 4, 3, 0), (8, 5, 3, 0), (8, 8, 2, 0)]
+FLOATCLASS_THOROUGH = [(4, 4, 4, 0), (8, 5, 4, 0), (8, 8, 3, 0), (16, 12, 3, 0), (3, 3, 3, 0)]
+
+
+def floatclass_cfgs(ctx):
+    return FLOATCLASS_THOROUGH if ctx.tier == "thorough" else FLOATCLASS_QUICK
+
+
 def uniform_cfgs(ctx):
     return [(b, p, 0, 0) for (b, p) in (UNIFORM_THOROUGH if ctx.tier == "thorough" else UNIFORM_QUICK)]
 
@@ -260,6 +315,9 @@ def c19(ctx):
     model_cases(ctx, "uniform", "c19", uniform_cfgs(ctx))
     model_cases(ctx, "fast", "c19", fast_cfgs(ctx))
     model_cases(ctx, "leaky", "c19", leaky_cfgs(ctx))
+    model_cases(ctx, "floatclass", "c19", floatclass_cfgs(ctx))
+    for c in ("float_must_reject", "float_valid_input"):
+        ctx.require(c)
     for c in ("fixed_accept", "fixed_reject", "fixed_accept_full_precision", "fixed_reject_full_precision"):
         ctx.require(c)
 
@@ -271,6 +329,7 @@ def c03(ctx):
     model_cases(ctx, "fast", "c03", fast_cfgs(ctx))
     model_cases(ctx, "leaky", "c03", leaky_cfgs(ctx))
     model_cases(ctx, "leakybig", "c03", leakybig_cfgs(ctx))
+    model_cases(ctx, "floatclass", "c03", floatclass_cfgs(ctx))
     ctx.require("leaky_big_support")
 
 
